@@ -30,6 +30,9 @@ STRENGTHENED = {
     "C08-6": "C08: a window of steps under RLIMIT_FSIZE in the sequential variant (C03's I/O-fault sub-check, with the limit lifted mid-run, catches it too)",
     "C03-5": "C03 buffer sub-check: value sizes whose log payload lands on/around the largest unfragmented record; a commit that fails is judged as a failed transaction (no trace, also after reopen)",
     "C03-6": "C03: sixth sub-check, several goroutines put into ONE transaction while it is committed / rolled back",
+    "C11-6": "C11: clause (e), two iterators of one reader used alternately with point lookups in between",
+    "C12-6": "C12 component sub-check: compaction calls under a process file-size limit (the compaction fails like on a full disk), followed by the worker's CleanupObsoleteFiles; content must be preserved",
+    "C13-5": "C13 loop class: slow-apply fault (an Apply that blocks for 5.5-8 s and then completes), observation continued after convergence",
     "C13-4": "C13: real Replica state machine with injected transient apply failures (error state -> recovery -> new stream)",
     "C15-4": "C15: primary with a pre-history (older log files in the directory) so that the ack path's retention pass has work to do",
 }
